@@ -416,6 +416,30 @@ def build(part, seed, tier, pinned):
         cmath_part(F64, 'f64', float_tables(F64, rng, tier), L)
     elif part == 'cm32':
         cmath_part(F32, 'f32', float_tables(F32, rng, tier), L)
+    elif part == 'cmld':
+        big = tier == 'thorough'
+        hi = float_boundaries(F64) + float_random(F64, rng, 2000 if big else 200)
+        t1 = [(b, 0) for b in hi]
+        # beyond the double grid: n + .5, n +- 1 for n = 2^k (k = 52..62), 2^63 - 1, 2^63 - .5, -2^63 - 1, both signs
+        for k in range(52, 64):
+            for lo in (0.5, -0.5, 1.0, -1.0, 0.25, -0.75):
+                if k == 63 and lo > 0:
+                    continue
+                for sgn in (1.0, -1.0):
+                    t1.append((F64.of(sgn * 2.0 ** k), F64.of(sgn * lo)))
+        for i in range(2000 if big else 200):
+            k = rng.randint(53, 62)
+            n = float((1 << k) + (rng.getrandbits(k - 11) << 11))        # exact double
+            lo = rng.choice((0.5, -0.5, 0.25, 0.75, -0.25, 1.0, 3.0, 0.4999999))
+            sgn = rng.choice((1.0, -1.0))
+            t1.append((F64.of(sgn * n), F64.of(sgn * lo)))
+        L.table('tl1', uniq(t1))
+        red = float_reduced(F64)
+        L.table('tl2', uniq([(a, b) for a in red for b in red]))
+        for f in ('floor', 'ceil', 'trunc', 'round', 'rint', 'lrint', 'llrint', 'signbit', 'fabs', 'abs', 'isnan', 'isinf', 'isfinite'):
+            L.ob(f + '_ld', f + '.ld', 'tl1')
+        for f in ('copysign', 'fmin', 'fmax'):
+            L.ob(f + '_ld', f + '.ld', 'tl2')
     elif part in ('int8', 'num8'):
         pairs = 'dom_u8x8' if tier == 'thorough' else 'dom_u8x8q'
         if part == 'int8':
